@@ -134,6 +134,10 @@ def _body_paths(check):
     for c in classes:
         check.guarded("SEAM-EQUIV", "xnum." + c, lambda: seam(check, proj, c))
     check.guarded("SEAM-EQUIV", "modeldisc.fvm1d.calc_res", lambda: residual_uniform(check, proj))
+    # invariance under a shift of the cell numbering needs fluxes that are element-wise in the face index: the value at
+    # one face must not depend on where the face sits in the array (same obligation as C01 POINTWISE)
+    from . import c01
+    check.guarded("POINTWISE", "numflux", lambda: c01.pointwise(check, proj))
     check.guarded("SEAM-EQUIV", "modeldisc.fvm1d.calc_bc_grad", lambda: seam_all_variables(check, proj))
     # "all integrators": the implicit family packs cells and equations into one vector; rows and columns
     # of its Jacobian must use one interleaved layout, or cells exchange roles with equations
@@ -144,4 +148,8 @@ def _body_paths(check):
     from . import c15
     if check.guarded("LAYOUT-AGREE", "modeldisc.fvm2dcart", lambda: c15.layout_agree(check)):
         check.guarded("SEAM-2D", "modeldisc.fvm2dcart.calc_bc_grad", lambda: c15.seam_2d(check))
+        # the differences are defined on EVERY interior face (a row left at zero is a seam in the middle of the domain)
+        n0 = len(check.obs)
+        check.guarded("GRAD-2D", "modeldisc.fvm2dcart.calc_grad", lambda: c15.kappa_2d(check))
+        check.obs[n0:] = [o for o in check.obs[n0:] if o.rule == "GRAD-2D"]
         check.guarded("PERIODIC-CLOSE", "modeldisc.fvm2dcart.calc_bc", lambda: c15.telescope_2d(check))
